@@ -169,6 +169,10 @@ def splice(text: str, contracts: dict, used: set, log: list) -> str:
         heads = list(re.finditer(r"^( +)(while [^\n]*?|loop) \{$", body, re.M))
         if len(heads) != len(loops):
             raise ShapeChanged(f"fn {name}: {len(heads)} loops in the code, {len(loops)} loop contracts")
+        for h, lc in zip(heads, loops):
+            form = "loop" if h.group(2) == "loop" else "while"
+            if lc.get("form", "while") != form:
+                raise ShapeChanged(f"fn {name}: a `{lc.get('form', 'while')}` loop under contract is now a `{form}` loop (the loop contract no longer fits; re-inspect)")
         for h, lc in reversed(list(zip(heads, loops))):
             ind = h.group(1)
             inv = f"\n{ind}    invariant " + f",\n{ind}        ".join(lc["invariant"]) + ","
@@ -198,6 +202,8 @@ def build_file(repo: Path) -> tuple[str, dict]:
     missing = set(lc.CONTRACTS) - used
     if missing:
         raise ShapeChanged(f"functions under contract no longer present in the lexer: {sorted(missing)}")
+    present = set(re.findall(r"^\s*(?:pub )?fn (\w+)\(", pieces["body"] + "\n" + pieces["helpers"], re.M))
+    uncontracted = sorted(present - set(lc.CONTRACTS) - set(getattr(lc, "NO_CONTRACT_NEEDED", [])))
     text = (
         "// GENERATED on every run by /verif/lib/fv/verus.py from /repo/fea-rs/src/parse/lexer.rs + lexer/lexeme.rs\n"
         "use vstd::prelude::*;\nverus! {\n"
@@ -210,7 +216,7 @@ def build_file(repo: Path) -> tuple[str, dict]:
         + "\n" + lc.LEMMAS
         + "\n} // verus!\nfn main() {}\n"
     )
-    return text, {"rewrites": rlog, "spliced": slog, "contracts": lc}
+    return text, {"rewrites": rlog, "spliced": slog, "contracts": lc, "uncontracted_functions": uncontracted}
 
 
 def shipped_vs_verified_diff(repo: Path, verified: str) -> str:
@@ -315,6 +321,8 @@ def run_unit(scratch: core.Scratch, units: list[dict], results: dict, texts: dic
     for pname in probes_ok:
         failing.pop(pname, None)
     info["vacuity_probes"] = {"must_fail": probes, "failed_as_required": probes_ok, "verified_unexpectedly": probes_vacuous}
+    uncontracted = meta.get("uncontracted_functions", [])
+    info["uncontracted_functions"] = uncontracted
     compile_failed = (not js) or ("verification-results" not in js)
     hard_errors = [d for fn, fl in failing.items() for d in fl if not _is_verification_error(d["description"])]
     for u in units:
@@ -326,6 +334,10 @@ def run_unit(scratch: core.Scratch, units: list[dict], results: dict, texts: dic
             fl = failing[fn]
             if all("rlimit" in f["description"] or "resource limit" in f["description"] for f in fl):
                 results[u["obligation"]] = {"status": "undecided", "reason": "rlimit exceeded", "failed_checks": fl, "stubs": [], "raw": stderr[-3000:]}
+            elif uncontracted:
+                # modular verification: a caller of a function that has no contract cannot be proved, whatever the
+                # function does - that is "needs a contract", not "the property is violated"
+                results[u["obligation"]] = {"status": "undecided", "reason": f"proof failed, but the unit now contains function(s) without a contract {uncontracted}: needs a contract, not decidable as a violation", "failed_checks": fl, "stubs": [], "raw": stderr[-3000:]}
             else:
                 results[u["obligation"]] = {"status": "failed", "reason": "", "failed_checks": fl, "stubs": [], "raw": stderr[-6000:]}
         elif "?" in failing:
